@@ -259,9 +259,6 @@ impl Property for C12 {
                         }
                     }
                 }
-                if codec.is_streamed() && all.iter().any(|&bs| streamed_alignment_hazard(&r.bytes, bs)) {
-                    return Outcome::discard("streamed block-alignment hazard (known finding F22)");
-                }
                 let sc = Scratch::new();
                 let f = match wrap(codec, &r.bytes, &sc.dir, "a.log", "a.log") {
                     Ok(f) => f,
